@@ -220,7 +220,9 @@ func (g *G) otherType(ty string) string {
 	return "null"
 }
 
-var strPool = []string{"", "a", "b", "ab", "hello", "Hello World", " pad ", "x,y,z", "42", "-7", "3.5", "true", "é€", "tab\there", "q\"uote", "back\\slash", "# not a comment", "// neither", "$ > ? @", "line\nbreak", "bell\x07", "nul\x00byte", "esc\x1b[0m", "cr\rlf"}
+var strPool = []string{"", "a", "b", "ab", "hello", "Hello World", " pad ", "x,y,z", "42", "-7", "3.5", "true", "é€", "tab\there", "q\"uote", "back\\slash", "# not a comment", "// neither", "$ > ? @", "line\nbreak", "bell\x07", "nul\x00byte", "esc\x1b[0m", "cr\rlf",
+	// endings and contents a hand-written string scanner gets wrong
+	"trail\\", "\\", "\\\"", "C:\\dir\\", "two\\\\", "q\"", "please return it", "let x = route", "'single'"}
 
 func (g *G) lit(ty string) *Node {
 	switch ty {
@@ -659,15 +661,32 @@ func (g *G) matchExpr(ty string, d int) *Node {
 	case 0: // on an int with literal patterns, a guard and a wildcard
 		m.C = append(m.C, g.expr("int", d-1))
 		n := 1 + g.n("mc", 3)
-		for i := 0; i < n; i++ {
-			m.C = append(m.C, N("mcase", N("plit", Int(int64(g.n("pl", 6)))), none, g.expr(ty, d-1)))
-		}
+		guardAt := -1
 		if g.pct("mguard", 50) {
+			// the guarded binding arm goes anywhere among the literal arms, so that arms follow a rejected binding
+			guardAt = g.n("mgpos", n+1)
+		}
+		guardArm := func() {
+			name := "mv"
+			// a pattern variable may shadow a variable of the enclosing scope: a rejected arm must leave that variable alone
+			if outer := g.visible("int", false); !g.p.NoPatternLeak && len(outer) > 0 && g.pct("mshadow", 45) {
+				name = outer[g.n("mshadowname", len(outer))]
+				g.event("match-pattern-shadows-outer-variable")
+			}
 			g.push()
-			g.scopes[len(g.scopes)-1]["mv"] = &vinfo{ty: "int", ro: true, pat: true}
-			m.C = append(m.C, N("mcase", NS("pvar", "mv"), Bin(g.pick("mg", []string{">", "<", "=="}), Var("mv"), Int(int64(g.n("mgv", 8)))), g.expr(ty, d-1)))
+			g.scopes[len(g.scopes)-1][name] = &vinfo{ty: "int", ro: true, pat: true}
+			m.C = append(m.C, N("mcase", NS("pvar", name), Bin(g.pick("mg", []string{">", "<", "=="}), Var(name), Int(int64(g.n("mgv", 8)))), g.expr(ty, d-1)))
 			g.pop()
 			g.event("match-guard")
+		}
+		for i := 0; i < n; i++ {
+			if i == guardAt {
+				guardArm()
+			}
+			m.C = append(m.C, N("mcase", N("plit", Int(int64(g.n("pl", 6)))), none, g.expr(ty, d-1)))
+		}
+		if guardAt == n {
+			guardArm()
 		}
 		if g.p.TotalOnly || g.pct("mwild", 80) {
 			m.C = append(m.C, N("mcase", N("pwild"), none, g.expr(ty, d-1)))
